@@ -199,7 +199,7 @@ def run(ctx):
     arbiters(ctx)
     lock_release(ctx)
     ob6 = ctx.ob("C05.6", "no wait-for cycle around refresh: the refresh request wins in the bank machine's idle state and in the multiplexer's read/write states, every "
-                          "other state has a traffic-independent exit, and command acceptance does not depend on the pending request (shared with C04.3)", 8)
-    share(ctx, ob6, "C04", ("C04.3",))
+                          "other state has a traffic-independent exit, command acceptance does not depend on the pending request, and every refresher state waits for the block it started (shared with C04.3, C04.9)", 8)
+    share(ctx, ob6, "C04", ("C04.3", "C04.9"))
     ctx.assume("the latency bound itself and fairness between ports under all schedules are NOT decided (runtime quantities); read_time / "
                "write_time = 0 disables the time-out by configuration (reported, not refuted)")
